@@ -34,13 +34,13 @@ def PRE_IMPORT(spec):
 
 def shards(tier, seed, scale):
     n = 16
-    return [{"programs": 2 if tier == "quick" else 6, "schedules": int((260 if tier == "quick" else 1500) * scale), "systematic": tier == "thorough"} for _ in range(n)]
+    return [{"programs": 3 if tier == "quick" else 6, "schedules": int((260 if tier == "quick" else 1500) * scale), "systematic": tier == "thorough"} for _ in range(n)]
 
 
 # ------------------------------------------------------------------ programs
 
 BACKEND_OPS = ["sum", "min", "add", "multiply", "dot", "id", "sum_t", "get_at", "softmax", "dot2"]
-OPS = BACKEND_OPS + ["adapted", "adapted_t", "factory", "solve_axes", "matches", "adapt_new"]
+OPS = BACKEND_OPS + ["adapted", "adapted_t", "factory", "factory_ai0", "factory_ai1", "solve_axes", "matches", "adapt_new"]
 
 
 def fixed_programs():
@@ -56,6 +56,8 @@ def fixed_programs():
         {"name": "byname-vs-with", "cold": False, "threads": [[("enter", "numpy.numpylike"), ("call", "dot", None), ("exit", "numpy.numpylike")], [("call", "sum", E), ("get", "numpy")]]},
         {"name": "cold-einsum-two-descriptions", "cold": True, "threads": [[("call", "dot", None)], [("call", "dot2", None)], [("call", "multiply", "numpy.einsum")]]},
         {"name": "cold-einsum-vs-einsum-backend", "cold": True, "threads": [[("call", "dot2", None), ("call", "sum", "numpy.einsum")], [("call", "id", "numpy.einsum"), ("call", "dot", "numpy.einsum")]]},
+        {"name": "cold-factories-at-two-positions", "cold": True, "threads": [[("call", "factory_ai0", None)], [("call", "factory_ai1", None)]]},
+        {"name": "cold-factories-and-plain-add", "cold": True, "threads": [[("call", "factory_ai1", None), ("call", "add", None)], [("call", "factory_ai0", None)], [("call", "factory", None)]]},
         {"name": "cold-two-signatures", "cold": True, "threads": [[("call", "sum", None), ("call", "sum_t", None)], [("call", "sum_t", None), ("call", "sum", None)]]},
         {"name": "cold-adapter-two-signatures", "cold": True, "threads": [[("call", "adapted", None)], [("call", "adapted_t", None)], [("call", "factory", None)]]},
         {"name": "cold-factory-vs-solve", "cold": True, "threads": [[("call", "factory", None), ("call", "solve_axes", None)], [("call", "factory", None), ("call", "matches", None)]]},
@@ -155,6 +157,11 @@ class World:
             return self.adapter("a [b]", self.xt)
         if op == "factory":
             return einx.add("a b, b", x, lambda shape: np.full(shape, 3.0))
+        if op in ("factory_ai0", "factory_ai1"):
+            # a factory that declares arg_index (and name): what it returns depends on the position it was given at
+            def f_ai(shape, arg_index=None, name=None):
+                return np.full(shape, 10.0 * (arg_index if arg_index is not None else -1) + len(name or ""))
+            return einx.add("b, a b", f_ai, x) if op == "factory_ai0" else einx.add("a b, b", x, f_ai)
         if op == "solve_axes":
             return sorted((k, int(v)) for k, v in einx.solve_axes("(a c) b", x, c=2).items())
         if op == "matches":
@@ -305,7 +312,7 @@ def run(spec, out):
     # every shard takes some fixed programs (round robin) and some random ones
     for k in range(spec["programs"]):
         if k % 2 == 0:
-            progs.append(fixed[(spec["shard"] + k // 2 * 16) % len(fixed)])
+            progs.append(fixed[(spec["shard"] + k // 2 * 7) % len(fixed)])  # (7 is coprime to the number of fixed programs: every program is taken by two shards)
         else:
             progs.append(random_program(rng))
     for program in progs:
